@@ -40,6 +40,11 @@ func stateAnnotation(s *Scanner, c byte) *jerr.JApiError {
 func stateMultilineAnnotationTextStart(s *Scanner, c byte) *jerr.JApiError {
 	s.foundAt(s.curIndex, AnnotationBegin)
 	s.step = stateMultilineAnnotation
+	if c == AnnotationDelimiterPart {
+		// The previous asterisk is a part of the opening "/*", so it cannot be
+		// a part of the closing "*/" at the same time ("/*/" isn't a closed annotation).
+		return nil
+	}
 	return stateMultilineAnnotation(s, c)
 }
 
